@@ -260,6 +260,10 @@ def run_case(case):
                 eig_params.add(pid)
 
     def sig_for(kind, pid):
+        if case.get("scale_leaves") and C.get("epochs_without_psi_sampling") and kind == "nonfinite":
+            # mechanism: rate x time above 709 (the regime repaired in 505a49e for psi > 0) together with an epoch without psi-sampling:
+            # A = |lambda - mu| exactly, and the branch-free forms of A + x / A - x divide 0 by 0 in the backward pass
+            return "C12:nonfinite-gradient:birth-death:rate-times-time-above-709:epoch-without-psi-sampling"
         if degenerate and pid in eig_params and kind in ("wrong", "nonfinite"):
             return "C12:gradient-wrong-or-not-finite:repeated-eigenvalues-of-the-rate-matrix"
         return "C12:%s-gradient:%s:%s:%s" % (kind, g["name"], e, pid)
